@@ -699,6 +699,9 @@ func (nopObserver) OnTxClose(txfile.FileStats, txfile.TxStats) {}
 func runStress(rep *Report, r *rand.Rand, n int) {
 	hung := 0
 	for i := 0; i < n; i++ {
+		if rep.outOfTime() {
+			break
+		}
 		seed := r.Int63()
 		nr, nw := 1+r.Intn(4), 1+r.Intn(3)
 		fails := stressOnce(seed, nr, nw, 6+r.Intn(10), i%2 == 0)
